@@ -108,6 +108,18 @@ pub fn materialise(spec: &CaseSpec, ex: &Exclusions) -> Case {
     }
 }
 
+/// `note` describes how the case was built; it refines the one signature that would otherwise be
+/// too coarse: a stack overflow is a recorded finding only for cycles through `@loadable`
+/// selections (non-loadable cycles are diagnosed since 184ebd9), any other stack overflow is new.
+pub fn run_case_files(rendered: &Rendered, note: &str) -> Result<&'static str, Fail> {
+    run_files(rendered).map_err(|mut f| {
+        if f.signature == "abort:stack-overflow" && note.contains("@loadable") {
+            f.signature.push_str(":loadable-cycle");
+        }
+        f
+    })
+}
+
 pub fn run_files(rendered: &Rendered) -> Result<&'static str, Fail> {
     let n = COUNTER.fetch_add(1, Ordering::SeqCst);
     let dir = compile::fresh_dir("c08", n);
@@ -144,12 +156,12 @@ pub fn run(args: &Args) {
         let rendered = cases::load_case_files(&v["input"]);
         report.case(Some(&format!("{:?}", rendered.files)), &["replay"]);
         report.case(Some("replay-marker"), &[]);
-        if let Err(f) = run_files(&rendered) {
+        if let Err(f) = run_case_files(&rendered, v["input"]["note"].as_str().unwrap_or("")) {
             report.violation("replay", &f, v["input"].clone());
         }
         report.finish();
     }
-    report.run_regressions(|input| run_files(&cases::load_case_files(input)).map(|_| ()));
+    report.run_regressions(|input| run_case_files(&cases::load_case_files(input), input["note"].as_str().unwrap_or("")).map(|_| ()));
 
     let cases_n = args.tier.pick(1000, 80_000);
     let res = vcore::run_prop_parallel(
@@ -162,7 +174,7 @@ pub fn run(args: &Args) {
             let case = materialise(spec, &ex);
             let kind = format!("{:?}", case.kind);
             let kind_label = kind.split('(').next().unwrap_or("").to_string();
-            let r = run_files(&case.rendered);
+            let r = run_case_files(&case.rendered, &case.note);
             let outcome = match &r {
                 Ok(o) => *o,
                 Err(_) => "crash",
